@@ -16,7 +16,15 @@
      kind - the pinned behaviour D47), no metadata; children = those of s with new
      identities (deep) or none (shallow); identities = n, n+1, ... in pre-order.
    [rows 0 f] : pre-order list of (parent id, node id, payload) of a forest;
-   [ins_rows blk l l'] : l' is l with the block blk inserted, all else in place. *)
+   [ins_rows blk l l'] : l' is l with the block blk inserted, all else in place;
+   [subseq l l'] : l is l' with some elements left out (same order).
+   [copy_rel ty dp topk lo hi c x] : is_copy of c at some identity, all identities of x in [lo, hi).
+   [copies ty dp topk f n srcs xs n'] : xs are the copies of the nodes srcs of the forest f, made one after
+     the other at consecutive identities n .. n'.   [src_ok f0 f p src] : node src of f0 is still found in f with
+     the same payload, and as the same branch unless p is inside it.
+   [place_all nb xs ch] : the child list after inserting xs one by one with the same `before`.
+   [op_tree o] / [op_reads o] / [op_footprint o] : the tree an operation works on / reads its copy source
+     from / both.   [same_on S w1 w2], [sim S x1 x2] : see the locality section. *)
 From Coq Require Import List ZArith Bool Arith Lia Permutation.
 From NT Require Import Sx Rose Surgery SurgeryFacts Machine WF MachineFacts Effects FrameTrees CopyFacts CopyMulti CopyWF CopyLocal CopySame.
 From NTGen Require Import Generated.
@@ -250,6 +258,32 @@ Theorem C07_copy_to_children_same_tree : forall w ti src target b deep r w' t ch
 Proof. exact copy_to_children_same. Qed.
 Print Assumptions C07_copy_to_children_same_tree.
 
+(* add(tree) below one of the tree's OWN nodes (only a shallow copy can succeed there): one block, in source
+   order, copies of the top-level nodes as they were; every row of the tree is still there in order *)
+Theorem C07_add_tree_same_tree : forall w ti p b deep r w' t ch,
+  op_add_tree w ti p ti b deep = (Ok r, w') ->
+  get_tree w ti = Some t -> NoDup (ids (forest_of t)) -> (forall n, In n (ids (forest_of t)) -> n < next w) ->
+  children_of p (forest_of t) = Some ch ->
+  exists t' pq a c xs,
+    get_tree w' ti = Some t' /\ parent_path p (forest_of t) = Some pq /\ ch = a ++ c /\
+    get_ch pq (forest_of t') = Some (a ++ xs ++ c) /\
+    Forall2 (copy_rel (typed t) (deep_tree deep) (default_kind t None) (next w) (next w')) (forest_of t) xs /\
+    block_pos b a c (match forest_of t with [] => false | _ => true end) /\
+    NoDup (ids (forest_of t')) /\
+    subseq (rows 0 (forest_of t)) (rows 0 (forest_of t')).
+Proof. exact add_tree_same. Qed.
+Print Assumptions C07_add_tree_same_tree.
+
+(* the loop of add(tree), for every `before`: one block in source order *)
+Theorem C07_add_tree_block : forall b ch xs0,
+  (forall s, b = BNode s -> xs0 <> [] -> before_ok (NNode s) ch = true /\ Forall (fun u => rid u <> s) xs0) ->
+  exists a c, ch = a ++ c /\
+    place_all (norm_before (tree_b' b (length ch))) xs0 ch =
+      a ++ (match tree_jb b (length ch) with Some _ => rev xs0 | None => xs0 end) ++ c /\
+    block_pos b a c (match xs0 with [] => false | _ => true end).
+Proof. exact add_tree_block. Qed.
+Print Assumptions C07_add_tree_block.
+
 (* ---- Tree.copy / Node.copy keep the world well-formed (the C01-C03 invariant) ---- *)
 Theorem C07_tree_copy_WFw : forall w sti r w',
   WFw w -> 0 < next w -> op_tree_copy w sti = (Ok r, w') -> WFw w'.
@@ -473,3 +507,13 @@ Example C07_copy_to_same_tree_nonvacuous :
       option_map (fun x => map (strip_ids true) (rch x)) (get_node 2 src7) /\
     wf_world_b w7k = true.
 Proof. conjs; try (vm_compute; reflexivity). vm_compute. discriminate. Qed.
+
+(* a shallow add(tree) of tree 0 below its own node 3, in front of nothing / at index -1: copies of the top nodes 1 and 3 *)
+Definition w7t : world := snd (step w7 (OAddTree 0 3 0 BNone (Some false))).
+Example C07_add_tree_same_tree_nonvacuous :
+    fst (step w7 (OAddTree 0 3 0 BNone (Some false))) = Ok [] /\
+    ids (forest_of (nth 0 (trees w7t) dflt)) = [1; 2; 4; 3; 5; 6] /\
+    option_map (fun x => map (fun c => i_obj (rinfo c)) (rch x)) (get_node 3 (forest_of (nth 0 (trees w7t) dflt))) = Some [1; 2]%Z /\
+    (exists e, fst (step w7 (OAddTree 0 3 0 BNone None)) = Err e) /\
+    wf_world_b w7t = true.
+Proof. conjs; try (vm_compute; reflexivity). eexists. vm_compute. reflexivity. Qed.
